@@ -34,8 +34,9 @@ Recv == \E o \in Marks : Deliver(o - pos)
 Next == Send \/ Refuse \/ Recv
 NBQuick == {<<"S", << <<118, 1>> >> >>}
 NBThorough == {<<"S", << <<118, 1>> >> >>, <<"N", <<>> >>}
-ShapesQuick == {<<2>>, <<1, 1>>}
-ShapesThorough == {<<2>>, <<1, 1>>, <<2, 1>>}
+ShapesQuick == {<<2>>, <<1, 1>>, <<0, 1>>}
+ShapesThorough == {<<2>>, <<1, 1>>, <<0, 1>>, <<1, 0>>}
+ShapesThree == {<<2, 1>>, <<1, 2>>, <<1, 1, 1>>}
 Spec == Init /\ [][Next]_vars
 
 (* negative control: admit EMPTY keys as if they were representable -- RoundTrip must then fail
